@@ -1111,6 +1111,20 @@ func (r *votesRun) stepGenesisRoundTrip() {
 			r.res.Violate("C02/total-power-below-online-power/after-genesis-import", "after export and import of the module's genesis the recorded total power is %s, the online oracles have %s", total, online)
 		}
 	}
+	if r.checkC01 {
+		// an oracle's position in the event sequence survives: a lower one after the import lets it vote again
+		// for a nonce it has voted for (a second, competing claim)
+		for i, o := range r.b.Oracles {
+			if _, found := r.b.K.GetOracle(r.c.Ctx, o.Oracle.Acc()); !found {
+				continue
+			}
+			was, is := r.b.K.GetLastEventNonceByOracle(r.c.Ctx, o.Oracle.Acc()), r.b.K.GetLastEventNonceByOracle(ctx, o.Oracle.Acc())
+			r.res.Count("oracle_positions_compared_across_genesis_round_trips", 1)
+			if is < was {
+				r.res.Violate("C01/oracle-position-lost-by-genesis-round-trip", "oracle %d has voted up to nonce %d; after export and import of the module's genesis it is expected at nonce %d again (last observed nonce %d)", i, was, is+1, r.b.K.GetLastObservedEventNonce(ctx))
+			}
+		}
+	}
 	for _, d := range diffs {
 		if len(d.Key) == 0 {
 			continue
